@@ -108,6 +108,9 @@ def check_case(ctx, b, l, r, e, info, a, md):
     if res[0] != 'ok':
         ctx.violation('merge of changes to different cells raised %s' % res[2], dict(data, kind='raises'))
         return
+    if mergelib.REAPPLIED[0] is not None:
+        ctx.violation('applying the decisions returned with the merge to base again does not give base with both sets of changes applied (%s)' % (info['actions'],),
+                      dict(data, kind='reapplied', got=enc(mergelib.REAPPLIED[0]) if not isinstance(mergelib.REAPPLIED[0], str) else mergelib.REAPPLIED[0]))
     if mergelib.has_conflict(res[2]):
         ctx.violation('changes to different cells are reported as a conflict (%s) under %s' % (info['actions'], a.key()), data)
     elif canon(res[1]) != canon(e):
